@@ -515,3 +515,327 @@ def model_expr(case, res, rundir):
         "(option_map (fun p => (string_of_list_ascii (print (%s)), p)) (grf_both (print (%s)) (print (%s))), "
         "spec_rf (leaves (%s)) (%s) (%s), List.length (biparts (leaves (%s)) (%s)), List.length (biparts (leaves (%s)) (%s)))"
         % (a, a, b, a, a, b, a, a, a, b))
+
+
+# =====================================================================================
+# Object-level cases: Tree OBJECTS, odd-but-legal taxon names, histories on one object
+# =====================================================================================
+ODD_POOLS = [
+    # blanks: written unquoted with "_" for the blank; distances must not care
+    ["San Juan", "b", "New York", "d", "e", "x y z", "Rio", "a b", "Tok Pisin"],
+    ["San Juan", "San", "Juan", "Juan San", "b", "c", "d", "e", "f"],
+    # names the writer quotes: underscore, brackets, quotes, and the characters the scanner cuts at
+    ["a_1", "b", "Proto_Germanic", "d", "e", "Old_High_German", "g", "h_", "_i"],
+    ["Miao,Hmu", "b", "c", "Yi,Nuosu", "e", "p:q", "s;t", "x(y)", "it's"],
+    ["[z]", "b", 'd"q', "d", "a'b", "f", "San Juan,x", "h", "A-1"],
+    ["a", "b", "c", "d", "e", "f", "g", "h", "i"],
+]
+TRIGGER = set("[]'\"(),:;_")
+
+
+def wname(n, unquoted_blank=False):
+    """a taxon name as (legal) Newick label"""
+    if any(c in TRIGGER for c in n) or (" " in n and not unquoted_blank):
+        return "'" + n.replace("'", "''") + "'"
+    return n
+
+
+def owrite(t, unquoted_blank=False):
+    ln = "" if t[2] is None else ":" + t[2]
+    if t[0] == "L":
+        return wname(t[1], unquoted_blank) + ln
+    return "(" + ",".join(owrite(c, unquoted_blank) for c in t[1]) + ")" + ln
+
+
+def _internal_preorder(t, acc=None):
+    acc = [] if acc is None else acc
+    if t[0] == "N":
+        acc.append(t)
+        for c in t[1]:
+            _internal_preorder(c, acc)
+    return acc
+
+
+def _rename(t, m):
+    if t[0] == "L":
+        return ("L", m.get(t[1], t[1]), t[2])
+    return ("N", [_rename(c, m) for c in t[1]], t[2])
+
+
+def _edit_internal(t, k, f, counter=None):
+    """apply f to the k-th internal node (preorder)"""
+    counter = [0] if counter is None else counter
+    if t[0] == "L":
+        return t
+    mine = counter[0]
+    counter[0] += 1
+    if mine == k:
+        t = f(t)
+        return t
+    return ("N", [_edit_internal(c, k, f, counter) for c in t[1]], t[2])
+
+
+def _parent_size(t, x):
+    for nd in _internal_preorder(t):
+        for c in nd[1]:
+            if c[0] == "L" and c[1] == x:
+                return len(nd[1])
+    return 0
+
+
+def _remove_tip(t, x):
+    if t[0] == "L":
+        return t
+    return ("N", [_remove_tip(c, x) for c in t[1] if not (c[0] == "L" and c[1] == x)], t[2])
+
+
+def apply_op(a, b, op):
+    """mirror of the in-place operation on the rose trees: returns (a', b')"""
+    kind = op[0]
+    if kind == "swap":
+        return _rename(a, {op[1]: op[2], op[2]: op[1]}), b
+    if kind == "rename":
+        return _rename(a, {op[1]: op[2]}), _rename(b, {op[1]: op[2]})
+    if kind == "reverse":
+        return _edit_internal(a, op[1], lambda nd: ("N", list(reversed(nd[1])), nd[2])), b
+    if kind == "move":
+        x = op[1]
+        tip = [c for nd in _internal_preorder(a) for c in nd[1] if c[0] == "L" and c[1] == x][0]
+        # the target index refers to the tree BEFORE the removal (same numbering: no internal node disappears)
+        a2 = _remove_tip(a, x)
+        return _edit_internal(a2, op[2], lambda nd: ("N", nd[1] + [tip], nd[2])), b
+    if kind == "drop":
+        return _remove_tip(a, op[1]), prune(b, op[1])
+    raise ValueError(op)
+
+
+def gen_ops(rng, a, b, n_ops):
+    ops = []
+    for _ in range(n_ops):
+        ls = leaves(a)
+        inner = _internal_preorder(a)
+        kind = rng.choice(["swap", "swap", "rename", "reverse", "move", "drop"])
+        if kind == "swap":
+            x, y = rng.sample(ls, 2)
+            op = ["swap", x, y]
+        elif kind == "rename":
+            new = rng.choice(["Zz9", "new name", "n_1", "Q"])
+            if new in ls:
+                continue
+            op = ["rename", rng.choice(ls), new]
+        elif kind == "reverse":
+            op = ["reverse", rng.randrange(len(inner))]
+        elif kind == "move":
+            cand = [x for x in ls if _parent_size(a, x) >= 3]
+            if not cand:
+                continue
+            x = rng.choice(cand)
+            # not the root: lingpy's Tree class cannot adopt a node (Tree.__init__ needs a Newick text)
+            targets = [k for k, nd in enumerate(inner) if k > 0 and not any(c[0] == "L" and c[1] == x for c in nd[1])]
+            if not targets:
+                continue
+            op = ["move", x, rng.choice(targets)]
+        else:
+            cand = [x for x in ls if _parent_size(a, x) >= 3 and _parent_size(b, x) >= 2]
+            if not cand or len(ls) <= 5:
+                continue
+            op = ["drop", rng.choice(cand)]
+        a2, b2 = apply_op(a, b, op)
+        if b2 is None or not proper(a2) or not proper(b2) or set(leaves(a2)) != set(leaves(b2)):
+            continue
+        ops.append(op)
+        a, b = a2, b2
+    return ops, a, b
+
+
+def gen_object_case(rng, history=False):
+    pool = rng.choice(ODD_POOLS)
+    n = rng.choice([5, 5, 6, 6, 7, 8])
+    taxa = rng.sample(pool, n)
+    multi = rng.choice([0.2, 0.5])
+    a = random_topology(rng, taxa, multi)
+    c = rng.random()
+    if c < 0.15:
+        b = shuffle_tree(rng, a)
+    elif c < 0.45:
+        b = nni(rng, a)
+    else:
+        b = random_topology(rng, taxa, multi)
+    lm = rng.choice(["none", "all", "some"])
+    a, b = add_lengths(rng, a, lm), add_lengths(rng, b, lm)
+    ops = gen_ops(rng, a, b, rng.choice([1, 2, 3]))[0] if history else []
+    return {"kind": "history" if history else "objects", "a0": a, "b0": b, "ops": ops,
+            "unquoted_blank": rng.random() < 0.4, "pseed": rng.randrange(10 ** 6)}
+
+
+def expected_state(case):
+    a, b = case["a0"], case["b0"]
+    for op in case["ops"]:
+        a, b = apply_op(a, b, op)
+    prng = random.Random(case["pseed"])
+    return a, b, shuffle_tree(prng, a), shuffle_tree(prng, b)
+
+
+def _tip(t, name):
+    for x in t.tips():
+        if x.Name == name:
+            return x
+    raise KeyError(name)
+
+
+def _apply_inplace(t, op):
+    inner = [n for n in t.traverse(self_before=True, self_after=False) if n.Children]
+    kind = op[0]
+    if kind == "swap":
+        t.reassignNames({op[1]: op[2], op[2]: op[1]})
+    elif kind == "rename":
+        if len(op[1]) % 2:
+            t.reassignNames({op[1]: op[2]})
+        else:
+            _tip(t, op[1]).Name = op[2]
+    elif kind == "reverse":
+        inner[op[1]].Children.reverse()
+    elif kind == "move":
+        inner[op[2]].append(_tip(t, op[1]))
+    elif kind == "drop":
+        x = _tip(t, op[1])
+        x.Parent.removeNode(x)
+    else:
+        raise ValueError(op)
+
+
+def _oobs(t):
+    return (list(t.getTipNames()),
+            [list(nd.getTipNames()) for nd in t.traverse(self_before=False, self_after=True) if nd.Children])
+
+
+class OBJ:
+    IMPORTS = IMPORTS
+    BITS = {1: "self distance: rf or grf of a tree object against itself is not 0",
+            2: "child order: distances changed when children were listed in another order",
+            3: "range: a distance is outside [0, 1]",
+            4: "symmetry: rf(a, b) != rf(b, a)",
+            5: "definition: rf / grf of the objects differ from the reference values of the trees they now are",
+            6: "round trip: parsing the Newick text written by the object changed the leaves or the clades",
+            7: "state: the object is not the tree the history should have produced"}
+    lift_q = False       # set by C15.known_witnesses
+    lift_s = False
+    lift_b = False
+
+    @staticmethod
+    def run_impl(case):
+        from lingpy.basic.tree import Tree
+        ub = case["unquoted_blank"]
+        a, b = case["a0"], case["b0"]
+        t1 = Tree(owrite(a, ub) + ";")
+        t2 = Tree(owrite(b, ub) + ";")
+        for op in case["ops"]:
+            # use the object before every modification (anything cached now would be stale afterwards)
+            str(t1), t1.getNewick(), _dist(t1, t2), _dist(t1, t1)
+            _apply_inplace(t1, op)
+            a, b = apply_op(a, b, op)
+            t2 = Tree(owrite(b, ub) + ";")
+        ea, eb, pa, pb = expected_state(case)
+        res = {}
+        res["tipsA"], res["cladesA"] = _oobs(t1)
+        res["tipsB"], res["cladesB"] = _oobs(t2)
+        rts = []
+        for w in (str(t1), t1.getNewick(), t1.getNewick(with_distances=True), t1.getNewickRecursive(),
+                  t1.getNewickRecursive(with_distances=True)):
+            try:
+                rts.append(list(_oobs(Tree(w))) + [w])
+            except Exception as e:     # written text cannot be parsed
+                rts.append([["<unparsable: %s>" % type(e).__name__], [], w])
+        res["rts"] = rts
+        p1, p2 = Tree(owrite(pa, ub) + ";"), Tree(owrite(pb, ub) + ";")
+        res["ab"], res["ba"] = _dist(t1, t2), _dist(t2, t1)
+        res["aa"], res["bb"] = _dist(t1, t1), _dist(t2, t2)
+        res["pab"] = _dist(p1, p2)
+        return res
+
+    @staticmethod
+    def render(case, res):
+        cx = _Ctx()
+        ea, eb, pa, pb = expected_state(case)
+        f = ["(%s)" % cx.tree(t) for t in (ea, eb, pa, pb)]
+        f += [L.b(OBJ.lift_q), L.b(OBJ.lift_s), L.b(OBJ.lift_b),
+              cx.names(res["tipsA"]), L.lst([cx.names(c) for c in res["cladesA"]]),
+              cx.names(res["tipsB"]), L.lst([cx.names(c) for c in res["cladesB"]]),
+              L.lst([L.pair(cx.names(r[0]), L.lst([cx.names(c) for c in r[1]])) for r in res["rts"]])]
+        for k in ("ab", "ba", "aa", "bb", "pab"):
+            f.append(L.pair(oq(res[k][0]), oq(res[k][1])))
+        return cx.wrap(L.record("ob_case", f))
+
+    @staticmethod
+    def nontrivial(case, res):
+        ea, eb, _, _ = expected_state(case)
+        odd = any(not x.isalnum() for x in leaves(ea))
+        return (odd or bool(case["ops"])) and res["ab"][1] is not None
+
+    @staticmethod
+    def jsonable(case, res=None):
+        c = dict(case)
+        if res is not None:
+            r = dict(res)
+            for k in ("ab", "ba", "aa", "bb", "pab"):
+                r[k] = [None if x is None else str(x) for x in res[k]]
+            c["impl"] = r
+            ea, eb, pa, pb = expected_state(case)
+            c["expected"] = {"a": owrite(ea) + ";", "b": owrite(eb) + ";", "a_reordered": owrite(pa) + ";",
+                             "b_reordered": owrite(pb) + ";"}
+        return c
+
+    @staticmethod
+    def from_json(c):
+        case = {k: v for k, v in c.items() if k not in ("impl", "expected")}
+        case["a0"], case["b0"] = _tup(case["a0"]), _tup(case["b0"])
+        return case
+
+    @staticmethod
+    def shrink(case):
+        if case["ops"]:
+            for i in range(len(case["ops"])):
+                c = dict(case)
+                c["ops"] = case["ops"][:i] + case["ops"][i + 1:]
+                try:
+                    expected_state(c)
+                except Exception:
+                    continue
+                yield c
+        a, b = case["a0"], case["b0"]
+        if any(x is not None for x in _lens(a) + _lens(b)):
+            c = dict(case)
+            c["a0"], c["b0"] = strip_lengths(a), strip_lengths(b)
+            yield c
+        ls = leaves(a)
+        used = {x for op in case["ops"] for x in op[1:] if isinstance(x, str)}
+        if len(ls) > 5:
+            for x in ls:
+                if x in used:
+                    continue
+                a2, b2 = prune(a, x), prune(b, x)
+                if a2 is None or b2 is None or a2[0] == "L" or b2[0] == "L":
+                    continue
+                c = dict(case)
+                c["a0"], c["b0"] = a2, b2
+                try:
+                    ea, eb, _, _ = expected_state(c)
+                    if not (proper(ea) and proper(eb)):
+                        continue
+                except Exception:
+                    continue
+                yield c
+
+    @staticmethod
+    def classify(case, res):
+        ea, eb, _, _ = expected_state(case)
+        ls = leaves(ea)
+        out = ["kind=" + case["kind"], "ops=%d" % len(case["ops"])] + ["op=" + op[0] for op in case["ops"]]
+        if any(" " in x for x in ls):
+            out.append("names:blank")
+        if any(c in TRIGGER for x in ls for c in x):
+            out.append("names:quoted")
+        if any(c in "(),:;" for x in ls for c in x):
+            out.append("names:scanner-chars")
+        out.append("rf=raised" if res["ab"][1] is None else "rf=value")
+        return out
